@@ -292,6 +292,34 @@ fn oracle_encodings(ec: &EncCase, obs: &mut Obs) -> Result<(), Violation> {
             seen.push(w);
         }
     }
+    // crafted signatures with a tiny r and recovery id 2 / 3 (R.x = r + n): whenever the sign crate recovers a key from
+    // them, the VM must produce exactly that key's words from their word encoding
+    for k in 0..6usize {
+        let mut b = [0u8; 64];
+        b[31] = ec.digest[k] | 1;
+        b[63] = 1 + (ec.sk[k] % 3);
+        for id in 2..4u8 {
+            let crafted = Signature(b, id);
+            let Ok(key) = essential_sign::recover_hash(ec.digest, &crafted) else { continue };
+            let rid = RecoveryId::try_from(id as i32).map_err(|e| viol!("sig:id-range", "{e}"))?;
+            let rs = RecoverableSignature::from_compact(&b, rid).map_err(|e| viol!("sig:crafted-malformed", "{e}"))?;
+            let w = essential_sign::encode::signature(&rs);
+            let mut case = ExecCase::simple(vec![crate::model::ops::MOp::RSECP]);
+            case.init.stack = bytes_to_words(&ec.digest);
+            case.init.stack.extend(w);
+            let sum = lockstep(&case, &LockCfg { budget: 10, breadth_cap: 1, record_ops: false }, obs)?;
+            let want = essential_sign::encode::public_key(&key).to_vec();
+            ensure!(
+                sum.failed_at.is_none() && sum.final_state.stack == want,
+                "sig:vm-recover-differs",
+                "signature (r = {}, s = {}, id {id}): the sign crate recovers a key, RecoverSecp256k1 on its word encoding gives {:?}",
+                b[31],
+                b[63],
+                sum.final_state.stack
+            );
+            obs.label("crafted-id-2/3-recoverable");
+        }
+    }
     // the same through the high-S form: encodes to different words, decodes back, and the VM recovers the same key
     {
         let hs = high_s_twin(&sig);
